@@ -691,7 +691,7 @@ def cases(tier, rng):
     for fe in ('v2', 'legacy'):
         for n in sizes:
             for mix in ('register', 'unregister', 'mixed'):
-                clocks = list(CLOCKS) + [[rng.choice((0, 0, 0, 0, 1)) for _ in range(rng.choice((7, 11, 13)))] for _ in range(4 if tier == 'quick' else 12)]
+                clocks = list(CLOCKS) + [[rng.choice((0, 0, 0, 0, 1)) for _ in range(rng.choice((7, 11, 13)))] for _ in range(4 if tier == 'quick' else 40)]
                 for clock in clocks:
                     for delay in (0, 0.2, 5):
                         for rmode in ('ok', 'varied'):
@@ -716,7 +716,7 @@ def cases(tier, rng):
                     for conns in (1, 2, 3) if tier != 'quick' else (2,):
                         yield dict(family='connect', fe=fe, before=before, during=during, connections=conns, replies=replies)
     # 4. codec round trips
-    n_codec = 400 if tier == 'quick' else 6000
+    n_codec = 400 if tier == 'quick' else 40000
     verbs = (('rib', 'register'), ('rib', 'unregister'), ('faces', 'create'), ('strategy-choice', 'set'), ('cs', 'config'))
     for i in range(n_codec):
         module, command = verbs[i % len(verbs)]
